@@ -404,6 +404,17 @@ class Sym:
             ops[int(real[0]['f'])] = val
             st.env[l] = ('agg', base[1], base[2], ops)
             return
+        if '*' not in prs and len(real) == 1 and 'f' in real[0] and base[0] != 'agg':
+            # a field of a by-value local copy (`let mut s = self.span; s.start = x;`): the copy is its own value, not an alias of the
+            # place it was copied from -- make the copy explicit (field-wise) and update it functionally
+            ty = str(self.b.locals[l]['ty']).split('<')[0]
+            adt = self.facts.adts.get(ty)
+            if adt is not None and adt.get('kind') == 'Struct' and len(adt['variants']) == 1:
+                fields = [f0['name'] for f0 in adt['variants'][0]['fields']]
+                if real[0]['f'] in fields:
+                    d = {f0: (('f', base, f0) if f0 != real[0]['f'] else val) for f0 in fields}
+                    st.env[l] = ('agg', ty, adt['variants'][0]['name'], d)
+                    return
         pt = self.project_noheap(st, base, prs)
         st.heap[tstr(pt, 100000)] = val
         st.effects.append(('store', pt, val, blk))
